@@ -34,6 +34,11 @@ fn families(t: Tier) -> Vec<(&'static str, u64)> {
         ("dag-smooth", t.n(10_000, 900_000)),
         ("readme", t.n(800, 30_000)),
         ("fanin", t.n(300, 10_000)),
+        // every single operation of C02's grids as the whole program (its adjoint IS the seed)
+        ("op-unary", t.n(3_000, 200_000)),
+        ("op-binary", t.n(4_000, 200_000)),
+        ("op-matmul", t.n(6_000, 400_000)),
+        ("op-conv", t.n(3_000, 200_000)),
     ]
 }
 fn floors(_t: Tier) -> Vec<(&'static str, u64)> {
@@ -52,7 +57,14 @@ fn run_with(p: &Program, seed: Option<&[f64]>, dims: &[usize]) -> Result<Grads, 
 }
 
 pub fn run_case(ctx: &mut Ctx, fam: &str, k: u64, r: &mut Rng) {
-    let p = c01::gen(ctx, fam, k, r);
+    let p = if let Some(sub) = fam.strip_prefix("op-") {
+        match super::c02::gen_case(sub, k, r) {
+            Some(c) => c.program(),
+            None => return,
+        }
+    } else {
+        c01::gen(ctx, fam, k, r)
+    };
     let rr = match eval_ref_plain(&p) {
         Some(x) => x,
         None => return,
@@ -69,6 +81,14 @@ pub fn run_case(ctx: &mut Ctx, fam: &str, k: u64, r: &mut Rng) {
     let s1: Vec<f64> = (0..n).map(|_| r.int(-3, 3) * m1).collect();
     let s2: Vec<f64> = (0..n).map(|_| r.int(-3, 3) * m2).collect();
     let (a, b) = (r.int(-3, 3), r.int(-3, 3));
+    // one case in five: two uneven seeds whose combination is a constant (or zero, or unit) array - the form a shortcut
+    // for uniform adjoints would key on
+    let (s2, a, b) = if r.chance(1, 5) {
+        let c = *r.pick(&[0.0, 1.0, 1.0, 7.0, -2.0]) * m1;
+        (s1.iter().map(|x| c - x).collect::<Vec<f64>>(), 1.0, 1.0)
+    } else {
+        (s2, a, b)
+    };
     let s3: Vec<f64> = s1.iter().zip(&s2).map(|(x, y)| a * x + b * y).collect();
     let ones = vec![1.0; n];
     let runs = (
